@@ -9,6 +9,7 @@ import (
 	"io"
 	"net/http"
 	"net/http/httptest"
+	"os"
 
 	"github.com/safing/portbase/utils"
 	rt "github.com/safing/portbase/zz_verifrt"
@@ -229,8 +230,12 @@ func VerifC17_UnpackArchive() {
 	res.SelectedVersion = rv
 	n := rt.Choice("entries", 3)
 	names := []string{"x", "d/y"}
+	// an entry may be damaged: its data breaks off or its checksum is wrong
+	damaged := false
 	for i := 0; i < n; i++ {
-		rt.ZipEntry(names[i])
+		kind := rt.Choice("damage"+string(rune('0'+i)), 3)
+		rt.ZipEntryDamaged(names[i], kind)
+		damaged = damaged || kind != 0
 	}
 	rt.ZipMaterialize(storage + "/a/b_v1-0-0.zip")
 	rt.FsFaults(2)
@@ -264,6 +269,17 @@ func VerifC17_UnpackArchive() {
 	}
 	if err == nil && renameIdx >= 0 {
 		rt.Assert(renamedOK, "unpackarchive/success-means-published")
+	}
+	if damaged && err == nil {
+		// a fragment is never published as the complete new content (a
+		// destination that exists already is left alone without unpacking)
+		published := renameIdx >= 0
+		if !rt.Symbolic() {
+			// natively (fresh sandbox, no file-system trace): the destination appeared
+			_, serr := os.Stat(dest)
+			published = serr == nil
+		}
+		rt.Assert(!published, "unpackarchive/damaged-archive-is-not-published")
 	}
 	if renameIdx >= 0 && renamedOK && err != nil {
 		// a failure after publication removes the destination again (back to "absent")
